@@ -83,9 +83,11 @@ pub fn plan(prop: &str) -> Vec<PlanItem> {
             l1("mpmc", 250_000, 6_000_000),
             l1("oneshot", 200_000, 5_000_000),
             l1("state_broadcast", 200_000, 5_000_000),
+            l2("S-chan", 100_000, 3_000_000),
             l2("S-chan-shared", 100_000, 3_000_000),
             l2("S-oneshot", 100_000, 3_000_000),
             l2("S-state", 100_000, 3_000_000),
+            l3("T-chan", 30_000, 1_500_000),
             l3("T-chan-shared", 30_000, 1_500_000),
             l3("T-oneshot", 30_000, 1_500_000),
             l3("T-state", 30_000, 1_500_000),
